@@ -222,6 +222,10 @@ def one_schedule(ctx, prop, base, cmds, point, mode, trace, prog, post_oracle=No
             pkB = None
         if ra.get("tracer_error") or rb.get("tracer_error"):
             ctx.count(1, key=("skipped: tracer error",)); return "skipped"
+        if ra["exit"] == -9 or rb["exit"] == -9:
+            # the harness gave up waiting for a resumed process and killed it (a lost SIGCONT / ptrace hiccup): such a run says nothing about ergo.
+            # (A command that really blocks on the lock is caught in "complete" mode, where B is run untraced with a 10 s limit.)
+            ctx.count(1, key=("skipped: resumed process did not finish, killed by the harness",)); return "skipped"
         ctx.count(1, key=(label[0], label[1], atA, mode))
         if judge(ctx, prop, base, c, [(reqA, agA, envA), (reqB, agB, envB)], [ra, rb], trace, step, post_oracle):
             return "violation"
